@@ -1,2 +1,49 @@
-(* C17 — Scanning recovers the written tokens with exact source positions. *)
-From Tpl Require Import Html.Scan Proofs.ScanSpec.
+(* C17 — Scanning recovers the written tokens with exact source positions.
+   Theorems only: each is closed by [exact] of a lemma proved under Proofs/. *)
+From Tpl Require Import Html.Scan Html.Code Proofs.ScanSpec Proofs.ScanConcat Proofs.ScanPos Proofs.ScanAttrPos Proofs.CodeConcat.
+
+(* Every token starts where the previous one ended (the first at 1:1) and ends at
+   pos_after(start, value), tab = 4 columns: for every source, raw-text list, prefix, Unicode table. *)
+Theorem positions_exact : forall (is_space : rune -> bool) (to_lower : rune -> rune) (text_tags : list str)
+    (attr_prefix : str) (compile : attr -> bool) (src : str) (toks : list token),
+  scan is_space to_lower text_tags attr_prefix compile src = inl toks ->
+  chain (1,1) toks.
+Proof. exact ScanPos.positions_exact. Qed.
+Print Assumptions positions_exact.
+
+(* The token values concatenate back to the source (so no character is lost or moved). *)
+Theorem scan_concat : forall (is_space : rune -> bool) (to_lower : rune -> rune) (text_tags : list str)
+    (attr_prefix : str) (compile : attr -> bool) (src : str) (toks : list token),
+  scan is_space to_lower text_tags attr_prefix compile src = inl toks ->
+  concat (map t_value toks) = src.
+Proof. exact ScanConcat.scan_concat. Qed.
+Print Assumptions scan_concat.
+
+(* Every (non-empty) attribute name is reported with the positions at which it lies in the tag. *)
+Theorem attr_name_span : forall is_space to_lower text_tags attr_prefix compile, is_space cSP = true ->
+  forall src toks, scan is_space to_lower text_tags attr_prefix compile src = inl toks ->
+  forall t a, In t toks -> In a (t_attrs t) -> a_name a <> [] ->
+  span_in (t_start t) (t_value t) (a_name a) (a_nstart a) (a_nend a).
+Proof. exact ScanAttrPos.attr_name_span. Qed.
+Print Assumptions attr_name_span.
+
+(* Directive values: code segments abut, start at the value's start position, end at
+   pos_after(start, value); their values concatenate to the consumed part of the attribute value. *)
+Theorem code_positions : forall compile start src toks, cscan compile start src = inl toks -> cchain start toks.
+Proof. exact CodeConcat.cscan_positions. Qed.
+Print Assumptions code_positions.
+
+Theorem code_concat : forall (compile : pos -> str -> bool) (start : pos) (src : str) (toks : list ctok),
+  cscan compile start src = inl toks ->
+  exists rest, concat (map c_value toks) ++ rest = src /\
+               cscan compile start (concat (map c_value toks)) = inl toks /\
+               (k_mode (fold_left (cstep compile) src (cinit start)) <> CDone -> rest = []).
+Proof. exact CodeConcat.cscan_concat_strong. Qed.
+Print Assumptions code_concat.
+
+(* Non-vacuity: a concrete multi-line document with a raw-text element scans successfully. *)
+Example scan_example :
+  exists toks, scan (fun r => N.eqb r 32 || N.eqb r 10 || N.eqb r 9) (fun r => r) [[115;99;114;105;112;116]] [58] (fun _ => true)
+    [60;112;32;97;61;39;120;39;62;10;9;60;115;99;114;105;112;116;62;97;60;98;60;47;115;99;114;105;112;116;62] = inl toks
+    /\ length toks = 5%nat.
+Proof. eexists; split; [vm_compute; reflexivity | reflexivity]. Qed.
